@@ -209,6 +209,7 @@ type (
 	View struct {
 		mgr *Manager
 
+		fetched  bool
 		indexes  []*index.Reader
 		releaser indexReleaser
 
@@ -2435,9 +2436,10 @@ func (mgr *Manager) GetView() View {
 }
 
 func (v *View) fetch() error {
-	if len(v.indexes) != 0 {
+	if v.fetched {
 		return nil
 	}
+	v.fetched = true
 	v.tagDetails = make(map[string]query.TagDetails)
 	v.tagConverters = make(map[string][]string)
 	v.converters = make(map[string]index.ConverterAccess)
